@@ -296,20 +296,46 @@ class Pipeline(object):
         self.loop = None
         self.order = []
         self.loop_ok = False
+        self.filtered = False
+        # the application may start its life under another local name
+        # (an expanded helper): app = Middleware(first_name, ...)
+        chain = {app}
         for a in self.assigns.get(app, []):
             v = a.value
-            if not isinstance(v, ast.Call):
-                continue
-            if any(isinstance(x, ast.Name) and x.id == app
-                   for x in v.args[:1]):
-                callee = self._vals(v.func)
-                self.direct.append((a, callee, v))
-            elif self.base is None:
-                self.base = a
+            if isinstance(v, ast.Call) and v.args and isinstance(
+                    v.args[0], ast.Name) and v.args[0].id != app and \
+                    self.assigns.get(v.args[0].id):
+                chain.add(v.args[0].id)
+        for nm in sorted(chain):
+            for a in self.assigns.get(nm, []):
+                v = a.value
+                if not isinstance(v, ast.Call):
+                    continue
+                if any(isinstance(x, ast.Name) and x.id in chain
+                       for x in v.args[:1]):
+                    callee = self._vals(v.func)
+                    self.direct.append((a, callee, v))
+                elif self.base is None:
+                    self.base = a
         for lp in [n for n in own_nodes(f.node) if isinstance(n, ast.For)]:
-            if not (isinstance(lp.iter, (ast.Tuple, ast.List)) and
+            # the tuple walked: a display, a local bound once to a display,
+            # either possibly through filter(None, ...) (skip the Nones)
+            it = lp.iter
+            filtered = False
+            if isinstance(it, ast.Call) and isinstance(
+                    it.func, ast.Name) and it.func.id == 'filter' and len(
+                        it.args) == 2 and isinstance(
+                            it.args[0], ast.Constant) and \
+                    it.args[0].value is None:
+                it = it.args[1]
+                filtered = True
+            if isinstance(it, ast.Name) and len(
+                    self.assigns.get(it.id, [])) == 1:
+                it = self.assigns[it.id][0].value
+            if not (isinstance(it, (ast.Tuple, ast.List)) and
                     isinstance(lp.target, ast.Name)):
                 continue
+            lp_elts = it.elts
             wraps = [a for a, _c, v in self.direct
                      if isinstance(v.func, ast.Name)
                      and v.func.id == lp.target.id and len(v.args) == 1
@@ -317,12 +343,21 @@ class Pipeline(object):
             if not wraps:
                 continue
             self.loop = lp
-            self.order = [(x.id, self.values.get(x.id, [x.id]))
-                          for x in lp.iter.elts if isinstance(x, ast.Name)]
+            # elements: local names (by the values they hold) or dotted
+            # middleware classes written in place
+            self.order = []
+            for x in lp_elts:
+                if isinstance(x, ast.Name) and x.id in self.values:
+                    self.order.append((x.id, self.values[x.id]))
+                else:
+                    d = prog.dotted(f.module, x, f)
+                    if d:
+                        self.order.append((src(x), [d]))
             guards = [n for n in own_nodes_of(lp) if isinstance(n, ast.If)]
-            self.loop_ok = len(self.order) == len(lp.iter.elts) and all(
+            self.loop_ok = len(self.order) == len(lp_elts) and all(
                 isinstance(g.test, ast.Name) and g.test.id == lp.target.id
                 for g in guards)
+            self.filtered = filtered
             self.direct = [d for d in self.direct if d[0] not in wraps]
         g = cfgmod.cfg_of(f)
         self.ret_ok = bool(self.loop is not None and self.app_var and
